@@ -914,3 +914,19 @@ def run_truthy_none(repo, res, modules):
                                 f'{f.qualname}: `{unparse(nd.test, 60)}` tests the optional numeric parameter `{p}` by truthiness: an '
                                 f'explicit 0 is treated as "not given" and silently replaced by the default', {}))
     return n
+
+
+def pathsum_spec(res, rule, f, ref_src, meaning, node=None):
+    """The function (or the given inner node) is path-summary equivalent to the reference definition `ref_src` (sa/pathsum.py)."""
+    from .. import pathsum as PS
+    fn = node if node is not None else f.node
+    ref = PS.parse_ref(ref_src)
+    try:
+        diff = PS.compare(fn, ref)
+    except PS.TooComplex as exc:
+        raise AnalysisError(f'{f.fullname}: path summary not computable ({exc})')
+    ok = diff is None
+    res.oblige(rule, f'{f.qualname}: {meaning}', ok, nontrivial=True, sample={'function': f.fullname, 'definition': ref_src.strip()[:200]})
+    if not ok:
+        res.add(Finding(rule, f.fullname, meaning, f.loc, f'{f.qualname}: {meaning} - {diff}', {}))
+    return ok
